@@ -244,7 +244,7 @@ def r10_4(prog, out):
                 found = True
                 bi = prog.info(tid)
                 key = "delete-removes-entry:%s" % label
-                flag = A.cell("TopicActor" if label == "topic" else "SubscriptionActor", "deleted")
+                flag = A.cell("TopicActor" if label == "topic" else "SubscriptionActor", "deleted", optional=True)
                 allowed = R.flag_true_blocks(bi, flag) | error_blocks(bi)
                 esc = bi.cfg.escapes(0, {e.bb for e in rem} | allowed, after=False)
                 if esc is None:
